@@ -508,12 +508,15 @@ impl Report {
                 // waived (with a note) provided every entry point the sub-check had to observe is
                 // observed by another sub-check of this run that is not blinded -- the exact-rational
                 // and native tiers then decide.  Otherwise it stays a harness problem.
-                const BLIND: [&str; 6] = ["poison:fp_compare", "poison:sym_compare", "poison:fp_abs", "poison:fp_epsilon", "poison:sym_epsilon", "poison:fp_floor"];
-                let blinded = |t: &Sub| -> bool {
-                    let b: u64 = BLIND.iter().map(|k| t.inconclusive.get(*k).copied().unwrap_or(0)).sum();
-                    t.evaluations > 0 && b * 100 >= t.evaluations * 95
-                };
-                if blinded(s) {
+                // The same holds for the exact-rational tier when vek (newly) asks for the largest /
+                // smallest value of the element type: the rationals have none (`real_max_value`,
+                // `real_min_value` poison the case).  There only the cases that reach such a call
+                // abstain, so the waiver applies when the abstaining cases account for the shortfall.
+                const BLIND: [&str; 8] = ["poison:fp_compare", "poison:sym_compare", "poison:fp_abs", "poison:fp_epsilon", "poison:sym_epsilon", "poison:fp_floor", "poison:real_max_value", "poison:real_min_value"];
+                let blind_count = |t: &Sub| -> u64 { BLIND.iter().map(|k| t.inconclusive.get(*k).copied().unwrap_or(0)).sum() };
+                let blinded = |t: &Sub| -> bool { t.evaluations > 0 && blind_count(t) * 100 >= t.evaluations * 95 };
+                let shortfall_is_blindness = blind_count(s) * 2 >= s.evaluations && s.distinct_count() + s.violations_total + blind_count(s) >= s.floor;
+                if blinded(s) || shortfall_is_blindness {
                     let names: Vec<&String> = if s.required.is_empty() { s.observed.keys().collect() } else { s.required.iter().collect() };
                     let covered = names.iter().all(|r| self.subs.iter().any(|t| t.name != s.name && !blinded(t) && t.conclusive > 0 && t.observed.get(*r).copied().unwrap_or(0) > 0));
                     if covered && !names.is_empty() {
